@@ -179,26 +179,137 @@ theorem validate_ne_ctx (fs : List (Option Detector.Finding)) (ids : List (Detec
             · exact ih _
           · exact ih _
 
-/-- `detector.Run` of C20's model and the detector phase of this model agree on which detectors start and on
-whether the run ends with `ctx.Err()`. -/
-theorem C10_plugins_detector_models_agree (px : Index.PkgMap) (ds : List Detector.Detector) :
-    (Detector.run ds px).calls.map (·.1) = (loop (plUnits (ds.map phOf)) ⟨false, [], []⟩).1.started ∧
-    ((Detector.run ds px).err = some .ctx ↔ (loop (plUnits (ds.map phOf)) ⟨false, [], []⟩).2 = true) := by
-  obtain ⟨h1, h2⟩ := detector_loops_agree px ds {} ⟨false, [], []⟩ rfl rfl rfl
-  unfold Detector.run
+/-- `detector.Run` of C20's model and the detector phase of this model agree — FROM EVERY ENTRY STATE (context live or
+already cancelled when the loop is entered) — on which detectors start and on whether the run ends with `ctx.Err()`. -/
+theorem C10_plugins_detector_models_agree (c : Bool) (px : Index.PkgMap) (ds : List Detector.Detector) :
+    (Detector.runFrom c ds px).calls.map (·.1) = (loop (plUnits (ds.map phOf)) ⟨c, [], []⟩).1.started ∧
+    ((Detector.runFrom c ds px).err = some .ctx ↔ (loop (plUnits (ds.map phOf)) ⟨c, [], []⟩).2 = true) := by
+  obtain ⟨h1, h2⟩ := detector_loops_agree px ds { cancelled := c } ⟨c, [], []⟩ rfl rfl rfl
+  unfold Detector.runFrom
   simp only []
-  cases hcr : (Detector.runLoop px ds {}).ctxReturn with
+  cases hcr : (Detector.runLoop px ds { cancelled := c }).ctxReturn with
   | true =>
     rw [hcr] at h2
     simp [h1, ← h2]
   | false =>
     rw [hcr] at h2
     simp only [Bool.false_eq_true, if_false]
-    cases hv : Detector.validate (Detector.runLoop px ds {}).findings [] with
+    cases hv : Detector.validate (Detector.runLoop px ds { cancelled := c }).findings [] with
     | none => simp [h1, ← h2]
     | some e =>
       have : e ≠ .ctx := fun he => validate_ne_ctx _ _ (he ▸ hv)
       simp [h1, ← h2, this]
+
+/-- THE ENTRY STATE `Scan` hands to the detector loop (the link C20's theorems rest on): the detectors are reached iff
+the filesystem and standalone phases returned no error; the loop is then entered with the log so far and with the
+context cancelled iff it was cancelled before the scan or inside some earlier plugin (necessarily the LAST iteration
+of the earlier phases, otherwise they would have returned `ctx.Err()`). -/
+theorem C10_plugins_detector_entry (before : Bool) (nfx : Nat) (roots : List (List (List Plugin))) (sts dets : List Plugin) :
+    let e := loop (fsUnits nfx roots ++ plUnits sts) ⟨before, [], []⟩
+    (e.2 = true → (scan before nfx roots sts dets).started = e.1.started ∧ (scan before nfx roots sts dets).failed = true) ∧
+    (e.2 = false →
+      (scan before nfx roots sts dets).started = (loop (plUnits dets) e.1).1.started ∧
+      (scan before nfx roots sts dets).failed = (loop (plUnits dets) e.1).2 ∧
+      e.1.cancelled = (before || (fsUnits nfx roots ++ plUnits sts).any (·.cancels))) := by
+  intro e
+  have h := C10_plugins_one_loop before nfx roots sts dets
+  have ha : loop (schedule nfx roots sts dets) ⟨before, [], []⟩ =
+      if e.2 then (e.1, true) else loop (plUnits dets) e.1 := by
+    unfold schedule; exact loop_append _ _ _
+  refine ⟨fun he => ?_, fun he => ?_⟩
+  · rw [h.1, h.2, ha]; simp [he]
+  · rw [h.1, h.2, ha]
+    refine ⟨by simp [he], by simp [he], ?_⟩
+    have := loop_cancelled (fsUnits nfx roots ++ plUnits sts) ⟨before, [], []⟩ he
+    simpa using this
+
+/-- … in particular: the LAST standalone extractor (or the last Extract call) cancels the context ⇒ the earlier
+phases complete, the detector loop is entered with a cancelled context, NO detector starts, and the scan fails iff
+there is a detector. (This is the case outside C20's `NoCancel`, which speaks of detectors only.) -/
+theorem C10_plugins_detectors_skipped (before : Bool) (nfx : Nat) (roots : List (List (List Plugin))) (sts dets : List Plugin)
+    (he : (loop (fsUnits nfx roots ++ plUnits sts) ⟨before, [], []⟩).2 = false)
+    (hc : (loop (fsUnits nfx roots ++ plUnits sts) ⟨before, [], []⟩).1.cancelled = true) :
+    (scan before nfx roots sts dets).started = (loop (fsUnits nfx roots ++ plUnits sts) ⟨before, [], []⟩).1.started ∧
+    (scan before nfx roots sts dets).failed = !dets.isEmpty := by
+  obtain ⟨h1, h2, _⟩ := (C10_plugins_detector_entry before nfx roots sts dets).2 he
+  have hs := loop_started (plUnits dets) (loop (fsUnits nfx roots ++ plUnits sts) ⟨before, [], []⟩).1
+  rw [h1, h2, hs.1, hs.2, hc]
+  cases dets <;> simp [ran, left, names, plUnits]
+
+example : (scan false 0 [[]] [pOk' "sx0", ⟨"sx1", .ok, true⟩] [pOk' "det0", pOk' "det1"]) =
+    ⟨["sx0", "sx1"], true, [("sx0", false), ("sx1", false)]⟩ := by decide
+
+/-- STATUSES. Nobody cancels ⇒ the result carries one status entry per standalone extractor and per detector, in
+order, failed iff that plugin returned an error. -/
+theorem C10_plugins_nocancel_status (nfx : Nat) (roots : List (List (List Plugin))) (sts dets : List Plugin)
+    (hc : ∀ u ∈ schedule nfx roots sts dets, u.cancels = false) :
+    (scan false nfx roots sts dets).status = specStatusNoCancel sts dets := by
+  -- a phase loop that nobody cancels: the status log grows by one entry per recorded plugin
+  have key : ∀ (us : List Iter) (s : St), s.cancelled = false → (∀ u ∈ us, u.cancels = false) →
+      (loop us s).2 = false ∧ (loop us s).1.cancelled = false ∧
+      (loop us s).1.status = s.status ++ us.flatMap (fun u => if u.records then u.plugins.map (fun p => (p.name, decide (p.ret = .err))) else []) := by
+    intro us
+    induction us with
+    | nil => intro s hs _; simp [loop, hs]
+    | cons u us ih =>
+      intro s hs hu
+      have hcu : u.cancels = false := hu u (by simp)
+      have hru : ∀ (ps : List Plugin) (t : St), t.cancelled = false → (∀ p ∈ ps, p.cancels = false) →
+          (runUnit u.records ps t).cancelled = false ∧
+          (runUnit u.records ps t).status = t.status ++ (if u.records then ps.map (fun p => (p.name, decide (p.ret = .err))) else []) := by
+        intro ps
+        induction ps with
+        | nil => intro t ht _; simp [runUnit, ht]
+        | cons p ps ihp =>
+          intro t ht hp
+          have hpc : p.cancels = false := hp p (by simp)
+          have := ihp ⟨t.cancelled || p.cancels, t.started ++ [p.name],
+            if u.records then t.status ++ [(p.name, p.fails (t.cancelled || p.cancels))] else t.status⟩ (by simp [ht, hpc])
+            (fun q hq => hp q (by simp [hq]))
+          rw [runUnit]
+          refine ⟨this.1, ?_⟩
+          rw [this.2]
+          cases hrec : u.records
+          · simp
+          · cases hret : p.ret <;> simp [Plugin.fails, hret, ht, hpc]
+      have hps : ∀ p ∈ u.plugins, p.cancels = false := by
+        intro p hp
+        have : u.plugins.any (·.cancels) = false := hcu
+        rw [List.any_eq_false] at this
+        simpa using this p hp
+      obtain ⟨h1, h2⟩ := hru u.plugins s hs hps
+      rw [loop]
+      simp only [hs, Bool.false_eq_true, if_false]
+      obtain ⟨i1, i2, i3⟩ := ih (runUnit u.records u.plugins s) h1 (fun v hv => hu v (by simp [hv]))
+      refine ⟨i1, i2, ?_⟩
+      rw [i3, h2]; simp [List.append_assoc]
+  unfold specStatusNoCancel
+  have hsched : ∀ u, u ∈ fsUnits nfx roots ∨ u ∈ plUnits sts ∨ u ∈ plUnits dets → u.cancels = false := by
+    intro u hu; apply hc; unfold schedule; simp only [List.mem_append]
+    rcases hu with h | h | h
+    · exact Or.inl (Or.inl h)
+    · exact Or.inl (Or.inr h)
+    · exact Or.inr h
+  obtain ⟨a1, a2, a3⟩ := key (fsUnits nfx roots) ⟨false, [], []⟩ rfl (fun u hu => hsched u (Or.inl hu))
+  obtain ⟨b1, b2, b3⟩ := key (plUnits sts) _ a2 (fun u hu => hsched u (Or.inr (Or.inl hu)))
+  obtain ⟨c1, c2, c3⟩ := key (plUnits dets) _ b2 (fun u hu => hsched u (Or.inr (Or.inr hu)))
+  have hscan : (scan false nfx roots sts dets).status =
+      (loop (plUnits dets) (loop (plUnits sts) (loop (fsUnits nfx roots) ⟨false, [], []⟩).1).1).1.status := by
+    unfold scan
+    simp [a1, b1, c1]
+  rw [hscan, c3, b3, a3]
+  have hfs : (fsUnits nfx roots).flatMap (fun u => if u.records then u.plugins.map (fun p => (p.name, decide (p.ret = .err))) else []) = [] := by
+    unfold fsUnits
+    split
+    · rfl
+    · simp only [List.flatMap_eq_nil_iff, List.mem_flatMap, List.mem_cons, List.mem_map]
+      rintro x ⟨r, _, hx⟩
+      rcases hx with rfl | ⟨a, _, rfl⟩ <;> simp
+  have hfm : ∀ l : List Plugin, l.flatMap (fun a => [(a.name, decide (a.ret = Ret.err))]) = l.map (fun p => (p.name, decide (p.ret = Ret.err))) := by
+    intro l; induction l with
+    | nil => rfl
+    | cons a l ih => simp [List.flatMap_cons, ih]
+  simp [hfs, plUnits, List.flatMap_map, List.map_append, hfm]
 
 /-! ### non-vacuity and the shape of the seeded defect -/
 
